@@ -85,9 +85,11 @@ def cvh(args, timeout=600, check=True):
 JAVA_DFS = "-Xss1g -Dtlc2.tool.queue.IStateQueue=StateDeque"
 
 
-def spec_hash():
+def spec_hash(deps=None):
     h = hashlib.sha256()
     for f in sorted(os.listdir(SPEC)):
+        if deps is not None and f not in deps:
+            continue
         if f.endswith((".tla", ".cfg")):
             h.update(f.encode())
             h.update(open(os.path.join(SPEC, f), "rb").read())
@@ -127,11 +129,11 @@ def parse_tlc(out):
         r["depth"] = int(m.group(1))
     for m in re.finditer(r"Error: Invariant (\w+) is violated", out):
         r["violated"].append(m.group(1))
-    for m in re.finditer(r"Error: Temporal properties were violated", out):
-        r["violated"].append("TEMPORAL")
+    for m in re.finditer(r"Error: Temporal propert(?:y (\w+) was|ies were) violated", out):
+        r["violated"].append(m.group(1) or "TEMPORAL")
     if "Model checking completed. No error has been found." in out or "Finished in" in out and not re.search(r"^Error:", out, re.M):
         r["ok"] = True
-    for m in re.finditer(r"^Error: (?!Invariant \w+ is violated|Temporal properties were violated|The behavior up to|The following behavior)(.*)$", out, re.M):
+    for m in re.finditer(r"^Error: (?!Invariant \w+ is violated|Temporal propert|The behavior up to|The following behavior)(.*)$", out, re.M):
         r["errors"].append(m.group(1)[:300])
     return r
 
@@ -153,10 +155,10 @@ def tlc(module, cfg, workdir, workers=2, timeout=900, args=(), env=None, tag="tl
     return r, out
 
 
-def tlc_cached(key, fn):
+def tlc_cached(key, fn, deps=None):
     """Cache for runs that depend on files under spec/ only (never on /repo)."""
     os.makedirs(CACHE, exist_ok=True)
-    h = hashlib.sha256((spec_hash() + "|" + key).encode()).hexdigest()[:24]
+    h = hashlib.sha256((spec_hash(deps) + "|" + key).encode()).hexdigest()[:24]
     p = os.path.join(CACHE, h + ".json")
     if os.path.exists(p) and not os.environ.get("VERIF_NOCACHE"):
         try:
